@@ -43,12 +43,15 @@ Definition ideal_big_output (c : bcase) : list N :=
   match ideal_dims c with
   | None => [0]
   | Some (nc, nr) =>
+      let is_cells := (bc_kind c =? 2)%nat in
       let is_col := negb (bc_kind c =? 0)%nat in
-      if is_col && negb (bc_col c <? nc) then [0]
+      if is_col && negb is_cells && negb (bc_col c <? nc) then [0]
       else
+        (* rows: nr items reported with their width; a column: nr cells; cells(): nc * nr cells *)
         let item := if is_col then [] else [nc] in
-        let '(o, (f, b)) := ideal_calls nr item is_col (0, 0) (bc_calls c) in
-        let rem := nr - f - b in
+        let L := if is_cells then nc * nr else nr in
+        let '(o, (f, b)) := ideal_calls L item is_col (0, 0) (bc_calls c) in
+        let rem := L - f - b in
         1 :: o ++ (match bc_term c with
                    | 0%nat => [rem]
                    | 1%nat => if 0 <? rem then 1 :: item else [0]
